@@ -636,6 +636,7 @@ fn fixed_corpus(decls: &[ArbDecl], st: &mut Stats, ctx: &WorkerCtx, which: u64) 
 
 fn run_check(cfg: &Config) -> i32 {
     let t0 = Instant::now();
+    let mut determinism_diverged = false;
     let decls = cat_c09::all();
     let n_sources: u64 = if cfg.thorough() { 8_000_000 } else { 300_000 };
     // Fixed corpus first (sharded by declaration), then the seeded sweep.
@@ -681,10 +682,20 @@ fn run_check(cfg: &Config) -> i32 {
     let a = sweep(cfg, &decls, 2048, true, 3);
     let b = sweep(cfg, &decls, 2048, true, cfg.workers.max(2));
     if a.trace != b.trace {
-        report::harness_error("determinism probe failed: the same seeds produced different event logs");
+        determinism_diverged = true;
     }
 
     let out = report::settle_violations(cfg, &stats, &|v| minimise(&decls, v));
+    if determinism_diverged {
+        if out.new_violations == 0 {
+            // The simulator is deterministic on the unchanged tree (./check selfcheck); if the same
+            // seeds give different event logs at different worker counts, something in the run has
+            // state that outlives a run. Without a concrete violation this is reported as a harness
+            // error, never as a property violation.
+            report::harness_error("determinism probe failed: the same seeds produced different event logs at different worker counts");
+        }
+        println!("NOTE: the determinism probe also diverged (results depend on which runs shared a worker thread: hidden state that outlives a run)");
+    }
     let wall = t0.elapsed().as_secs_f64();
     let mut extra = Map::new();
     extra.insert("declarations".into(), json!(decls.iter().map(|d| d.name).collect::<Vec<_>>()));
